@@ -178,6 +178,7 @@ HOSTILE = ["nan", "NaN", " nan ", "-nan", "inf", "-Infinity", "1e999", "1e-999",
            {1: 2, "x": 3}, {None: 1, "a": 0}, 0.0, [0], "0", b"bytes"]
 # lists whose items are not in sorted order (a validator that "canonicalises" must do so on its own copy), and strings that
 # are legal as text but malformed / positional / attribute-reaching as format templates
+HOSTILE_MAPS = [{"EditGraph ": 2}, {" Speak": 1, "Speak": 2, "speak\t": 3}]  # keys that change when trimmed
 HOSTILE_LISTS = [["zz", "aa"], ["t2:semantic", "a:b"], [3, 1, 2], ["b", "a", "b"]]
 HOSTILE_TEXT = ["x\x00y", "\x00", "a/../b", "dir with space/sub", "ünï/中", "{", "}", "tail {", "{0}: {labels}", "{labels:>q}", "{labels!x}", "{labels.__class__}", "{labels[0]}", "{}", "%s %(x)s", "{{ {labels} }}", '{"k": "{labels}"}']
 HOSTILE_NUM = [10 ** 400, -10 ** 400, 1e308, 1e200, 2 ** 63, 10 ** 18, 0, -1, 5e-324, 1e-300]
@@ -590,7 +591,7 @@ def _chunk(args):
             except Exception:
                 pass
         sweep = [(p_, v_) for p_ in allp for v_ in HOSTILE]
-        sweep += [(p_, v_) for p_ in allp for v_ in HOSTILE_LISTS]
+        sweep += [(p_, v_) for p_ in allp for v_ in HOSTILE_LISTS + HOSTILE_MAPS]
         sweep += [(p_, v_) for p_ in allp if isinstance(get_at(tmpl, p_), str) for v_ in HOSTILE_TEXT]
         interior = sorted({p_[:j] for p_ in allp for j in range(1, len(p_))})
         sweep += [(p_, v_) for p_ in interior for v_ in (None, 1, "x", [], True, {}, {1: 2, "EditGraph": 3}, {None: 1, "a": 0, 2.5: 1}, {(1, 2): 1, "b": {3: 4, "c": 5}},
